@@ -101,17 +101,41 @@ Definition enc_step (r : option err * dmodel) : list Z := verdict_code (fst r) :
 Definition run_bare (steps : list step) (peers : list (list otab)) : list (list (option err * dmodel)) :=
   map (fun os => run_steps empty_model steps (map oracle_of os)) peers.
 
-(* instance histories: state = (stored model, model in memory, is an instance running).
-   GraphDatabase::update_data_model applies the system model and the new version to a copy of the
-   stored model, has the writer store it (storage_refuses: the database refuses its indexes) and
-   only then makes it the model in memory; a refusal of either kind changes neither and is
-   reported; a refused start leaves no instance *)
-Fixpoint run_inst_obs (stored mem : dmodel) (running : bool) (steps : list (bool * step)) (os : list otab)
-  : list (bool * option (dmodel * dmodel)) :=
+(* rows: the harness writes three rows for every entity of the first started version that can be
+   written with plain scalar values, and reads them — and every field the model in memory has gained
+   since — back after every step.  The query evaluator is not modelled; what is modelled is the one
+   way in which the reading is known to differ (finding class 4): a Boolean field with a default,
+   added to an entity that has rows, reads 1 / 0 on the old rows (`Ifnull(_json->'$.n', true)`:
+   SQL true is the integer 1) instead of true / false *)
+Definition writable (t : ftype) : bool := match t with TBool | TFloat | TInt | TStr => true | _ => false end.
+Definition has_rows (d : edecl) : bool :=
+  existsb (fun f => writable (fd_type f)) (ed_fields d)
+  && forallb (fun f => writable (fd_type f) || is_ref (fd_type f) || negb (needs_default (fd_nullable f) (fd_default f) (fd_type f))) (ed_fields d).
+Definition baseline_of (v : version) : list (N * N * list N) :=
+  flat_map (fun b => flat_map (fun d => if has_rows d then [(fst b, ed_name d, map fd_name (ed_fields d))] else []) (snd b)) (v_blocks v).
+Definition bool_default_new (mem : list nspace) (b : N * N * list N) : bool :=
+  let '(ns, e, orig) := b in
+  match find_ns ns mem with
+  | None => false
+  | Some n => match find_ent e (n_ents n) with
+              | None => false
+              | Some en => existsb (fun f => negb (memN (f_name f) orig) && (match f_type f with TBool => true | _ => false end)
+                                             && negb (is_none (f_default f))) (e_fields en)
+              end
+  end.
+Definition rows_flag (mem : dmodel) (base : list (N * N * list N)) : bool := negb (existsb (bool_default_new (m_nss mem)) base).
+
+(* instance histories: state = (stored model, model in memory, is an instance running, the entities
+   that have rows).  GraphDatabase::update_data_model applies the system model and the new version to
+   a copy of the stored model, has the writer store it (storage_refuses: the database refuses its
+   indexes) and only then makes it the model in memory; a refusal of either kind changes neither and
+   is reported; a refused start leaves no instance *)
+Fixpoint run_inst_obs (stored mem : dmodel) (running : bool) (base : option (list (N * N * list N)))
+         (steps : list (bool * step)) (os : list otab) : list (bool * option (dmodel * dmodel * bool)) :=
   match steps with
   | [] => []
   | (is_start, s) :: r =>
-      if negb is_start && negb running then (false, None) :: run_inst_obs stored mem running r (tl os)
+      if negb is_start && negb running then (false, None) :: run_inst_obs stored mem running base r (tl os)
       else
       let o := oracle_of (hd (mkOT [] [] []) os) in
       let '(W, e) := upd o (s_sys s) stored (s_ver s) in
@@ -119,18 +143,20 @@ Fixpoint run_inst_obs (stored mem : dmodel) (running : bool) (steps : list (bool
       let stored' := if ok then W else stored in
       let mem' := if ok then W else if is_start then stored else mem in     (* a start begins with a fresh value *)
       let running' := if is_start then ok else true in
-      (ok, if running' then Some (mem', stored') else None) :: run_inst_obs stored' mem' running' r (tl os)
+      let base' := match base with Some b => Some b | None => if running' then Some (baseline_of (s_ver s)) else None end in
+      (ok, if running' then Some (mem', stored', rows_flag mem' (match base' with Some b => b | None => [] end)) else None)
+        :: run_inst_obs stored' mem' running' base' r (tl os)
   end.
-Definition enc_inst (x : bool * option (dmodel * dmodel)) : list Z :=
+Definition enc_inst (x : bool * option (dmodel * dmodel * bool)) : list Z :=
   zb (fst x) :: match snd x with
                 | None => [0%Z]
-                | Some (mem, sto) => [1%Z] ++ enc_model mem ++ enc_model sto ++ [1%Z]   (* rows readable: not modelled, always 1 *)
+                | Some (mem, sto, rows) => [1%Z] ++ enc_model mem ++ enc_model sto ++ [zb rows]
                 end.
 
 Definition run_C15 (c : c15case) : list Z :=
   match c with
   | CBare steps peers => flat_map (fun p => flat_map enc_step p) (run_bare steps peers)
-  | CInst steps os => flat_map enc_inst (run_inst_obs empty_model empty_model false steps os)
+  | CInst steps os => flat_map enc_inst (run_inst_obs empty_model empty_model false None steps os)
   end.
 
 (* ---------------------------------------------------------------- the property's own oracle *)
@@ -301,10 +327,10 @@ Fixpoint refused_unchanged (M : dmodel) (l : list (option err * dmodel)) : Prop 
 (* instance histories: at every step the model in memory is the stored one, a refused step —
    by the data model rules or by the database — leaves the store as it was, an accepted one keeps
    the identifiers *)
-Fixpoint inst_chain (stored : dmodel) (l : list (bool * option (dmodel * dmodel))) : Prop :=
+Fixpoint inst_chain (stored : dmodel) (l : list (bool * option (dmodel * dmodel * bool))) : Prop :=
   match l with
   | [] => True
-  | (ok, Some (mem, sto)) :: r => mem = sto /\ (ok = false -> sto = stored) /\ keeps_ids stored sto /\ inst_chain sto r
+  | (ok, Some (mem, sto, _)) :: r => mem = sto /\ (ok = false -> sto = stored) /\ keeps_ids stored sto /\ inst_chain sto r
   | (ok, None) :: r => ok = false /\ inst_chain stored r
   end.
 
@@ -328,11 +354,20 @@ Definition addresses_kept (M M' : dmodel) : Prop :=
   forall ns e f a, address (m_nss M) ns e f = Some a -> address (m_nss M') ns e f = Some a.
 
 (* ---------------------------------------------------------------- known-finding classes *)
-(* none open: the three defects this check found (K1 identifiers of fields added together followed
-   the hash-map order, K2 a refused version left the model half-updated, K3 a refusal at run time
-   was answered with Ok) are repaired in /repo (known_findings.d/C15.json, status fixed); their
-   witnesses stay among the directed cases and must pass the oracle *)
-Definition known_C15 (c : c15case) : list Z := [].
+(* classes 1-3 (K1 identifiers followed the hash-map order, K2 a refused version left the model
+   half-updated, K3 a refusal at run time was answered with Ok) are repaired in /repo
+   (known_findings.d/C15.json, status fixed): their witnesses stay among the directed cases and
+   must pass the oracle.
+   class 4 (open): an instance history in which an entity that has rows is given a Boolean field
+   with a default: the old rows read 1 / 0 for it instead of true / false (query.rs get_fields) *)
+Definition known_C15 (c : c15case) : list Z :=
+  match c with
+  | CBare _ _ => []
+  | CInst steps os =>
+      if forallb (fun x => match snd x with Some (_, _, rows) => rows | None => true end)
+                 (run_inst_obs empty_model empty_model false None steps os)
+      then [] else [4%Z]
+  end.
 
 Definition eval_C15 (c : c15case) (obs : list Z) : list Z :=
   [zb (zlist_eqb (run_C15 c) obs); zb (spec_C15 c obs)] ++ known_C15 c.
